@@ -3,12 +3,18 @@
 
 select(module_source, qualname, if_test) locates, inside function `qualname` (Class.method), the `if`/`elif`
 whose test unparses to `if_test` and returns its body statements.  keep_statements(body, keep) returns, in order,
-  * assignments / augmented assignments whose targets are all names in `keep`,
+  * assignments / augmented assignments whose targets are names in the backward slice of `keep` (the names themselves
+    plus every local temporary they are computed from, up to the inputs the harness supplies),
   * `if` statements that (recursively) consist only of such assignments,
 and, separately, the tests of the remaining `if` statements and the dict values passed to calls named in
 `capture_calls`.  Everything else in the body is DROPPED from the verified text (token extraction from
 ParseResults, the f-string rendering of numbers and their re-parse, list surgery on self.text)."""
 import ast
+
+
+class SliceMismatch(Exception):
+    """the harness's idea of the source (an `if` test to locate, names to slice for, a call to capture) no longer
+    matches the source text: the unit is UNDECIDED (nothing is known about the code), never a violation"""
 
 
 def find_function(tree, qualname):
@@ -21,7 +27,7 @@ def find_function(tree, qualname):
                 found = n
                 break
         if found is None:
-            raise LookupError("cannot find %s in module" % qualname)
+            raise SliceMismatch("cannot find %s in module" % qualname)
         node = found
     return node
 
@@ -33,7 +39,7 @@ def select(tree, qualname, if_test, nth=0):
         if isinstance(n, ast.If) and ast.unparse(n.test).replace("\n", " ") == if_test:
             hits.append(n)
     if len(hits) <= nth:
-        raise LookupError("no `if %s` (occurrence %d) in %s" % (if_test, nth, qualname))
+        raise SliceMismatch("no `if %s` (occurrence %d) in %s" % (if_test, nth, qualname))
     return hits[nth].body
 
 
@@ -63,8 +69,44 @@ def _pure_if(st, keep):
     return True
 
 
-def keep_statements(body, keep, capture_calls=()):
-    kept, tests, captured = [], [], []
+def _reads(st):
+    return {n.id for n in ast.walk(st) if isinstance(n, ast.Name) and isinstance(n.ctx, ast.Load)} | (
+        {st.target.id} if isinstance(st, ast.AugAssign) and isinstance(st.target, ast.Name) else set())
+
+
+def _assigned_simply(body):
+    out = set()
+    for st in body:
+        t = _targets(st)
+        if t is not None:
+            out |= set(t)
+        elif isinstance(st, ast.If):
+            out |= _assigned_simply(st.body + st.orelse)
+    return out
+
+
+def keep_statements(body, keep, capture_calls=(), inputs=()):
+    """backward slice for the names in `keep`: simple assignments (and ifs made only of them) that define a needed name;
+    a name such a statement reads becomes needed too if the body defines it by a simple assignment and it is not one of
+    the `inputs` the harness supplies.  Local renamings / explanatory temporaries therefore do not change the slice."""
+    needed = set(keep)
+    simple = _assigned_simply(body)
+    inputs = set(inputs)
+    while True:
+        before = set(needed)
+        for st in body:
+            t = _targets(st)
+            if (t is not None and any(x in needed for x in t) and not any(x in inputs for x in t)) or _pure_if(st, needed):
+                if t is not None:
+                    needed |= set(t)
+                for r in _reads(st):
+                    if r in simple and r not in inputs:
+                        needed.add(r)
+        if needed == before:
+            break
+    keep = needed
+    kept = []
+    subscripts = tuple(c[:-len(".update")] for c in capture_calls if c.endswith(".update"))
     for st in body:
         t = _targets(st)
         if t is not None and all(x in keep for x in t):
@@ -78,4 +120,6 @@ def keep_statements(body, keep, capture_calls=()):
                 if isinstance(a, ast.Dict):
                     for v in a.values:
                         kept.append(("capture", v))
+        elif isinstance(st, ast.Assign) and len(st.targets) == 1 and isinstance(st.targets[0], ast.Subscript) and ast.unparse(st.targets[0].value) in subscripts:
+            kept.append(("capture", st.value))          # d[k] = v  is the same table entry as  d.update({k: v})
     return kept
